@@ -138,6 +138,10 @@ func StringValueFromCodeField(message proto.Message) (string, bool) {
 					return original, true
 				}
 			}
+			if enum == 0 {
+				// INVALID_UNINITIALIZED: the element has no value (it may still carry extensions)
+				return "", false
+			}
 			// the rule of the FHIR protos: lower case, '_' for '-' (strcase.ToKebab would
 			// also split "LEVEL1" into "level-1")
 			return strings.ToLower(strings.ReplaceAll(string(value.Name()), "_", "-")), true
